@@ -63,7 +63,9 @@ type content struct {
 	Mappings []mappingSpec `json:"mappings"`
 }
 
-var oddStrings = []string{"", "a", "ünïcödé", "日本語のテキスト", "emoji 🍄🕸", "quote\"back\\slash", "<script>&amp;</script>", "line\nbreak\ttab", "nul\x00byte", "   separators", "ß", " leading and trailing "}
+var oddStrings = []string{"", "a", "ünïcödé", "日本語のテキスト", "emoji 🍄🕸", "quote\"back\\slash", "<script>&amp;</script>", "line\nbreak\ttab", "nul\x00byte", "   separators", "ß", " leading and trailing ",
+	// text that LOOKS like an escape sequence of the stored format: it must come back as the same text
+	"amp \\u0026 lt \\u003c gt \\u003e", "\\u0000\\n\\t\\\"", "{\"k\":[1,2]}", "\u2028\u2029 separators", "back\\\\slash\\", "]]}}"}
 
 func genString(r *rand.Rand) string {
 	switch r.Intn(10) {
@@ -886,7 +888,9 @@ func run(c *vf.Ctx) {
 			_ = os.WriteFile(of, oldBytes, 0o644)
 			snapOld, err = loadSnapshot(of)
 			if err != nil {
-				c.Fatal("old state does not load: %v", err)
+				// the old generation was written by the real code's undisturbed shutdown as well
+				c.Violation(vf.Key("reload-after-clean-save", "old"), fmt.Sprintf("a state file written by an undisturbed Stop() is refused by the next start: %v", err), map[string]any{"pair": p}, nil)
+				continue
 			}
 		} else {
 			snapOld, _ = loadSnapshot(filepath.Join(base, "does-not-exist.json"))
@@ -929,14 +933,21 @@ func run(c *vf.Ctx) {
 		vers := map[int][]byte{0: oldBytes, 1: newBytes, 2: shortBytes, 3: longBytes}
 		snaps := map[int]string{-1: "", 0: snapOld, 1: snapNew}
 		snaps[-1], _ = loadSnapshot(filepath.Join(base, "does-not-exist.json"))
+		genBad := false
 		for v := 2; v <= 3; v++ {
 			f := filepath.Join(base, "ver-copy.json")
 			_ = os.WriteFile(f, vers[v], 0o644)
 			sn, err := loadSnapshot(f)
 			if err != nil {
-				c.Fatal("version %d does not load: %v", v, err)
+				// generations 2 and 3 are serialised by the real code's undisturbed shutdown, too
+				c.Violation(vf.Key("reload-after-clean-save", fmt.Sprintf("generation-%d", v)), fmt.Sprintf("a state file written by an undisturbed Stop() is refused by the next start: %v", err), map[string]any{"pair": p, "generation": v}, nil)
+				genBad = true
+				break
 			}
 			snaps[v] = sn
+		}
+		if genBad {
+			continue
 		}
 		dump.Inits = []string{dump.Edges[0].From}
 		g := vf.BuildGraph(dump)
